@@ -199,6 +199,107 @@ def simulate(E, N, start, Ts, in_order, tape):
     return ("done", a)
 
 
+def joint_cases(tier):
+    """Two anneals from one supplied initial state: the pair of final states must be distributed as the product of the
+    single-anneal reference distribution with itself (each anneal starts from the supplied state)."""
+    for nm, kind, cont, D, deg2 in MODELS:
+        N = 1 + max(i for k in D for i in k)
+        if N > 3:
+            continue
+        for in_order in (True, False):
+            for Ts in ([1], [2]):
+                if (not in_order) and N > 2:
+                    continue      # random order: both anneals' site and acceptance draws multiply; two-spin models only
+                for start in range(1 << N):
+                    yield {"part": "joint", "model": nm, "in_order": in_order, "Ts": Ts, "start": start}
+
+
+def check_joint(case, st):
+    kind, cont, M, DL, deg2 = build_model(case["model"])
+    spin = kind == "spin"
+    labels = visiting_labels(kind, cont, M, deg2)
+    N = len(labels)
+    E = rp.tt(DL, labels, spin)
+    Ts = [float(t) for t in case["Ts"]]
+    start = case["start"]
+    init = rp.assignment(start, labels, spin)
+    f = anneal_fn(kind, deg2)
+    idx = {l: j for j, l in enumerate(labels)}
+    deviation = [None]
+
+    def word_menu(i, log, prefix):
+        # local menu (cut at the threshold the reference predicts for the current decision); the draw discipline it relies on
+        # is verified on every tape, as in check_distlocal.  Two anneals: the second continues on the same tape.
+        r = simulate(E, N, start, Ts, case["in_order"], prefix)
+        if r[0] == "done":
+            used = simulate_used(E, N, start, Ts, case["in_order"], prefix)
+            r = simulate(E, N, start, Ts, case["in_order"], prefix[used:])
+        if r[0] != "word":
+            deviation[0] = "position %d: reference expects %r" % (i, r)
+            return tapedfs.cuts_to_menu([0.5])
+        return tapedfs.cuts_to_menu([r[1]])
+
+    def fn():
+        import warnings
+        with warnings.catch_warnings():
+            warnings.simplefilter("ignore")
+            return f(M, num_anneals=2, initial_state=init, schedule=Ts, in_order=case["in_order"], seed=0)
+
+    def outcome(res):
+        out = []
+        for r in res:
+            a = 0
+            for l, v in r.state.items():
+                bit = (1 - v) // 2 if spin else v
+                a |= int(bit) << idx[l]
+            out.append(a)
+        return tuple(out)
+    dist, runs, leaves, cps = tapedfs.enumerate_all(fn, word_menu, outcome, max_runs=200_000)
+    st.traces += runs
+    st.transitions += cps
+    st.states += leaves - 1
+    st.extra["tapes_executed"] = st.extra.get("tapes_executed", 0) + runs
+    if deviation[0]:
+        st.skipped["joint: draw discipline differs from the textbook one (%s)" % deviation[0][:60]] += 1
+        return
+    ref = mp.final_distribution(E, N, start, Ts, case["in_order"])
+    if leaves > 1:
+        st.nontrivial += 1
+    worst, wa = 0.0, None
+    for a in range(1 << N):
+        for b in range(1 << N):
+            err = abs(dist.get((a, b), 0.0) - ref[a] * ref[b])
+            if err > worst:
+                worst, wa = err, (a, b)
+    st.outcomes["joint: %d distinct pairs" % len(dist)] += 1
+    if worst > TOL:
+        a, b = wa
+        st.violation("joint-distribution|%s|%s|%s" % ("quadratic-kernel" if deg2 else "polynomial-kernel", "in-order" if case["in_order"] else "random-order", kind),
+                     case, "C12 %s %s from %r, schedule %r, in_order=%s, num_anneals=2: P(finals = (%r, %r)) = %.9f over all %d tapes, but two independent anneals from the supplied "
+                     "state give %.9f" % (case["model"], f.__name__, init, Ts, case["in_order"], rp.assignment(a, labels, spin), rp.assignment(b, labels, spin),
+                                          dist.get((a, b), 0.0), leaves, ref[a] * ref[b]))
+
+
+def simulate_used(E, N, start, Ts, in_order, tape):
+    """Number of tape entries one complete reference anneal consumes (tape must be long enough)."""
+    a, pos = start, 0
+    for T in Ts:
+        for j in range(N):
+            if in_order:
+                i = j
+            else:
+                i = tape[pos] % N
+                pos += 1
+            dE = E[a ^ (1 << i)] - E[a]
+            if dE <= 0:
+                a ^= 1 << i
+            elif T > 0:
+                if tape[pos] / 4294967296.0 < math.exp(-dE / T):
+                    a ^= 1 << i
+                pos += 1
+    return pos
+
+
 def local_cases(tier):
     """Deeper schedules, enumerated with a LOCAL menu (cut only at the threshold the reference predicts for the current
     decision).  Sound only if the implementation follows the textbook draw discipline, which is verified on every tape:
@@ -320,15 +421,26 @@ def check_zero(case, st):
                     import warnings
                     with warnings.catch_warnings():
                         warnings.simplefilter("ignore")
-                        return f(M, num_anneals=1, initial_state=init, schedule=Ts, in_order=True, seed=0)
+                        return f(M, num_anneals=3, initial_state=init, schedule=Ts, in_order=True, seed=0)
                 res, log = tp.run([], fn)
                 st.traces += 1
                 st.transitions += 1
-                stt = res[0].state
-                a = 0
-                for l, v in stt.items():
-                    a |= ((1 - v) // 2) << l
                 want, tie = mp.zero_temp_sweeps(E, N, start, nsweeps)
+                # every one of the anneals starts from the supplied state: without ties all results are the reference state
+                finals = []
+                for r in res:
+                    a = 0
+                    for l, v in r.state.items():
+                        a |= ((1 - v) // 2) << l
+                    finals.append(a)
+                if len(res) != 3:
+                    st.violation("zero-temp|count|%s" % f.__name__, dict(case, start=start, Ts=Ts), "C12 %s returned %d results for num_anneals=3" % (f.__name__, len(res)))
+                    continue
+                if not tie and any(x != want for x in finals[1:]) and finals[0] == want:
+                    st.violation("zero-temp|later-anneal-differs|%s" % f.__name__, dict(case, start=start, Ts=Ts),
+                                 "C12 %s(%s %s) at T=0, %d sweep(s) in order from %r with num_anneals=3: the anneals end in %r, every one must end in the reference state %r "
+                                 "(each anneal starts from the supplied initial state)" % (f.__name__, cont, D, nsweeps, init, finals, want))
+                a = finals[0]
                 if E[a] > E[start] + 1e-12:
                     st.violation("zero-temp|energy-increased|%s" % f.__name__, dict(case, start=start, Ts=Ts),
                                  "C12 %s(%s %s) at T=0 from %r: final value %r > initial value %r" % (f.__name__, cont, D, init, E[a], E[start]))
@@ -479,6 +591,8 @@ def check(case, st):
         check_dist(case, st)
     elif p == "distlocal":
         check_distlocal(case, st)
+    elif p == "joint":
+        check_joint(case, st)
     elif p == "zero":
         check_zero(case, st)
     elif p == "zero-random":
@@ -491,6 +605,7 @@ def gen_cases(tier):
     def it():
         yield from dist_cases(tier)
         yield from local_cases(tier)
+        yield from joint_cases(tier)
         yield from zero_cases(tier)
         yield {"part": "repro", "which": "plain"}
         for nm in ("chain3", "cubic3f", "qubo3"):
@@ -514,7 +629,7 @@ def run(ctx):
 def replay(case):
     tp.lib()
     st = Stats()
-    base = {k: v for k, v in case.items() if k not in ("start", "Ts", "order", "seed", "in_order") or case["part"] in ("dist", "distlocal")}
+    base = {k: v for k, v in case.items() if k not in ("start", "Ts", "order", "seed", "in_order") or case["part"] in ("dist", "distlocal", "joint")}
     if case["part"] == "repro":
         base = {k: case[k] for k in ("part", "which", "model") if k in case}
     check(base, st)
